@@ -7,6 +7,7 @@ and every sink function `enc : ContentType → Bytes → Bytes` (escaping + enco
 -/
 import LolHtml.Lemmas.Edit
 import LolHtml.Lemmas.EditDoc
+import LolHtml.Lemmas.ElementOps
 
 namespace LolHtml.Thm.C07
 open LolHtml LolHtml.Model LolHtml.Spec.Edit LolHtml.Lemmas.Edit
@@ -82,6 +83,125 @@ example :
         [.mut .remove, .mut (.before (.buffer [60] .text)), .mut (.after (.buffer [62] .text))]).intoBytes encUtf8
       = [38, 108, 116, 59, 38, 103, 116, 59] := by decide
 
+
+/-! ## C07_element_ops — every `Element` method = its documented edit of the element's regions
+
+An element is (start tag, inner content, end tag). `Spec.Edit.ElemEdit.apply` is the documented
+effect of each method on the regions  before · start tag · prepended · inner · appended · end tag ·
+after  (with "no-op on elements that cannot have content", "`after` of such an element comes right
+after its start tag", `el.start_tag()` operations concerning the start tag only).
+For every script on a fresh element:
+* the start-tag token serialises to the start region
+  `before ++ (start tag | replacement | ε) ++ prepended` (`++ after` instead, if no content),
+  where the start tag's own bytes are those of the start tag after the implied name/attribute calls,
+  with `/` dropped as soon as content was inserted;
+* `should_remove_content` ⇔ the inner region is removed;
+* when the end tag arrives, the deferred handler (rename, install mutations) followed by the user's
+  `on_end_tag` handlers yields the same bytes as running the script of *public* end-tag calls
+  `endTagScript` (rename; `before` for each appended chunk; `after` for each after-chunk, innermost
+  last; `remove` if the element was removed/replaced/unwrapped; then the user handlers' calls) —
+  hence, by `C07_token_edit_endTag`, `appended ++ (end tag | ε) ++ after`;
+* an element that cannot have content defers nothing. -/
+
+open LolHtml.Lemmas.ElementOps in
+theorem C07_element_ops (enc : Enc) (st : StartTag) (hfresh : st.mutations = {}) (chc : Bool)
+    (ops : List ElementOp) :
+    let el := (Element.new st chc).applyOps ops
+    let E := ElemEdit.applyOps chc {} ops
+    el.startTag.intoBytes enc
+        = E.startRegion enc chc
+            ({ st.applyOps (startTagOwnOps ops) with
+                selfClosing := st.selfClosing && !selfClosingCleared chc ops } : StartTag).serializeSelf
+      ∧ el.shouldRemoveContent = E.innerRemoved
+      ∧ (chc = true → ∀ name raw : Bytes,
+          (endTagAfter el { name := name, raw := raw }).intoBytes enc
+            = (({ name := name, raw := raw } : EndTag).applyOps E.endTagScript).intoBytes enc)
+      ∧ (chc = false → el.intoEndTagHandler = none) := by
+  intro el E
+  have hchc : el.canHaveContent = chc := applyOps_canHaveContent _ _
+  have habs : absEl el = E := by
+    show absEl ((Element.new st chc).applyOps ops) = _
+    rw [absEl_applyOps, absEl_new st chc hfresh]; rfl
+  have hinv : EInv el := EInv_applyOps _ _ (EInv_new st chc)
+  refine ⟨?_, ?_, ?_, ?_⟩
+  · have hown := element_startTag_own (Element.new st chc) ops
+    rw [startTag_intoBytes_region, habs, hchc]
+    congr 1
+    apply serializeSelf_of_ownPart
+    · exact hown.1
+    · exact hown.2
+  · rw [← habs]; rfl
+  · intro hc name raw
+    rw [← habs]
+    exact endTag_region enc el hinv (hchc.trans hc) name raw
+  · intro hc
+    have := hinv.void (hchc.trans hc)
+    simp [Element.intoEndTagHandler, this.1, this.2.1, this.2.2]
+
+/-- The end region in closed form: appended contents, the (renamed) end tag unless removed, the
+`after` contents — when the user registered no `on_end_tag` handler. -/
+theorem C07_element_end_region (enc : Enc) (E : ElemEdit) (hu : E.endHandlers = []) (name raw : Bytes) :
+    (({ name := name, raw := raw } : EndTag).applyOps E.endTagScript).intoBytes enc
+      = encodeDyn enc E.append
+        ++ (if E.endDropped then [] else
+              (match E.endName with
+               | some n => [60, 47] ++ n ++ [62]
+               | none => raw))
+        ++ encodeDyn enc E.after := by
+  open LolHtml.Lemmas.ElementOps in
+  rw [C07_token_edit_endTag]
+  have hm : endMutOps E.endTagScript
+      = E.append.map MutOp.before ++ E.after.reverse.map MutOp.after ++ (if E.endDropped then [MutOp.remove] else []) := by
+    unfold ElemEdit.endTagScript
+    rw [endMutOps_append, endMutOps_append, endMutOps_append, endMutOps_append, endMutOps_map_mut,
+      endMutOps_map_mut, endMutOps_removeOps, endMutOps_renameOps, hu]
+    simp [endMutOps]
+  have hn : endTagOwn raw E.endTagScript = (match E.endName with
+               | some n => [60, 47] ++ n ++ [62]
+               | none => raw) := by
+    show (match (endNameOps E.endTagScript).getLast? with
+          | some n => [60, 47] ++ n ++ [62]
+          | none => raw) = _
+    unfold ElemEdit.endTagScript
+    rw [endNameOps_append, endNameOps_append, endNameOps_append, endNameOps_append, endNameOps_map_mut,
+      endNameOps_map_mut, endNameOps_removeOps, hu]
+    simp only [List.flatten_nil, List.append_nil]
+    rw [show endNameOps [] = [] from rfl, List.append_nil, endNameOps_renameOps]
+  rw [hm, hn]
+  have hl : lastReplacement (E.append.map MutOp.before ++ E.after.reverse.map MutOp.after
+      ++ (if E.endDropped then [MutOp.remove] else [])) = none := by
+    apply lastReplacement_none_of
+    intro op hop c
+    simp only [List.mem_append, List.mem_map] at hop
+    rcases hop with (⟨x, _, rfl⟩ | ⟨x, _, rfl⟩) | hop
+    · simp
+    · simp
+    · split at hop <;> simp at hop
+      subst hop; simp
+  simp only [edit, hl, befores_append, afters_append, dropped_append, befores_map_before,
+    befores_map_after, afters_map_after, afters_map_before, dropped_map_before, dropped_map_after]
+  cases E.endDropped <;> simp [befores, afters, dropped, encodeDyn_nil]
+
+/-- Non-vacuity: `<a/>` (foreign, but here `chc = true`) with
+`prepend("p"); append("q"); after("z"); set_tag_name("b"); before("x")`:
+start region `x<b>p` (the `/` is dropped, renamed), end tag `</a>` becomes `q</b>z`. -/
+example :
+    let st : StartTag := { name := [97], attributes := [], selfClosing := true, raw := [60, 97, 47, 62] }
+    let el := (Element.new st true).applyOps
+      [.prepend (.buffer [112] .html), .append (.buffer [113] .html), .after (.buffer [122] .html),
+       .setTagName [98], .before (.buffer [120] .html)]
+    el.startTag.intoBytes encUtf8 = [120, 60, 98, 62, 112]
+      ∧ (LolHtml.Lemmas.ElementOps.endTagAfter el { name := [97], raw := [60, 47, 97, 62] }).intoBytes encUtf8
+          = [113, 60, 47, 98, 62, 122] := by decide
+
+/-- Non-vacuity: on a void element (`chc = false`) `prepend`/`append`/`set_inner_content` are no-ops
+and `after` lands right after the start tag. -/
+example :
+    let st : StartTag := { name := [98, 114], attributes := [], selfClosing := false, raw := [60, 98, 114, 62] }
+    let el := (Element.new st false).applyOps
+      [.prepend (.buffer [112] .html), .append (.buffer [113] .html), .setInnerContent (.buffer [105] .html),
+       .after (.buffer [122] .html)]
+    el.startTag.intoBytes encUtf8 = [60, 98, 114, 62, 122] ∧ el.intoEndTagHandler = none := by decide
 
 /-! ## C07_removed_content — the emission switch
 
